@@ -206,6 +206,30 @@ def check_wake_count(ctx, P):
             construct="tick count not from the timer read")
 
 
+def check_poll_idle(ctx, P):
+    tf = P.fn("fiber_manager_thread_func")
+    o = ctx.ob("poll.idle", tf, "a kernel thread with no runnable fiber polls the event engine (fiber_poll_events / fiber_poll_events_blocking) before it idles again, "
+               "and polling is switched off (should_check_events = false) only by fiber_shutdown",
+               "sleepers and fibers blocked on descriptors are woken only by a poller: if idle threads stop polling while every fiber is asleep nobody is ever woken")
+    polls = tf.calls(("fiber_poll_events", "fiber_poll_events_blocking"))
+    nx = tf.calls("fiber_scheduler_next")
+    bad = None
+    if not polls or not nx:
+        bad = ("the idle loop does not poll the event engine", tf.loc)
+    else:
+        isflag = lambda n: n.k == "ImplicitCastExpr" and n.ck == "LValueToRValue" and strip(n).k == "DeclRefExpr" and strip(n).name == "should_check_events"
+        at = atom_from([(lambda n: n is nx[0], 0), (isflag, 1), (lambda n: n.k == "ImplicitCastExpr" and n.ck == "LValueToRValue" and strip(n).k == "DeclRefExpr" and strip(n).name == "fiber_shutting_down", 0)])
+        if not reach(tf, polls, at, start=nx[0]):
+            bad = ("with nothing runnable and polling enabled the idle loop does not reach a poll", nx[0])
+        if reach(tf, nx, at, start=nx[0], barrier=nodeset(polls)):
+            bad = bad or ("with nothing runnable the idle loop can come round again without having polled", nx[0])
+    for fn in P.unique_functions():
+        for s_ in fn.stores():
+            if fn.target_key(s_.target) == ("glob", "should_check_events") and s_.value is not None and strip(s_.value).cv == 0 and fn.name != "fiber_shutdown":
+                bad = bad or ("`%s` in %s switches polling off" % (s_.node.text, fn.name), s_.node)
+    o.check(bad is None, "idle loop polls", bad[0] if bad else None, site=bad[1] if bad else None, construct="idle thread does not poll")
+
+
 def check_tick(ctx, P):
     """units of the tick counter: it advances by u per timer expiration, expirations are T ms apart, sleepers add (ms + 1) and are woken by a
     strict comparison.  A sleeper registered just before a tick is woken at the k-th tick after it, k = floor((ms+1)/u) + 1, having slept
@@ -274,6 +298,7 @@ def check_early(ctx, P):
 
     check_tick(ctx, P)
     check_wake_count(ctx, P)
+    check_poll_idle(ctx, P)
     fs = P.fn("fiber_sleep")
     o = ctx.ob("early.width", fs, "the deadline added to the tick counter is at least seconds*1000 + useconds/1000 + 1 for every 32-bit "
                "(seconds, useconds), computed without wrap-around, and the node's wake tick is tick counter + that value",
